@@ -239,6 +239,9 @@ def _str_escape(s: str) -> str:
             c = r'\v'
         elif c == "\\": 
             c = r'\\'
+        elif c == '\x00':
+            # docutils drops null characters from Text nodes
+            c = r'\x00'
         return c
 
     # Escape it
